@@ -25,7 +25,8 @@ package crl
 
 //@ func CRLRevocationChecker.Provision
 //@   constructor
-//@   props C15 C16 C19 C20 C03
+//@   props C12 C15 C16 C19 C20 C03
+//@   ensures[C12,C20] leftovers_are_cleaned_at_every_start: called(NewCRLRepository#1) && res(NewCRLRepository#1, 0) == nil ==> called(Repository.DeleteTempFilesIfExist#1)
 //@   requires[C15,C19] usable_interval: crlConfig != nil && crlConfig.UpdateIntervalParsed > 0
 //@   requires c != nil && crlConfig != nil && crlConfig.CDPConfig != nil && logger != nil && norwlocks() && unheld(&workDirInUseMutex) && unheld(&crlUpdateMutex) && certsNonNil(crlConfig.TrustedSignatureCerts)
 //@   assigns L.held, crlrepository.Entry.CRLStore, crlrepository.Entry.Loaded, crlrepository.Entry.LastUpdateSignatureVerifyFailed, crlrepository.Entry.LastUpdateSignature, crlrepository.Entry.Chains, H.crlrepository.Repository.crlRepository, M.map[string]*crlrepository.Entry, crlstore.MapStore.Map, M.map[string][]uint8, crlstore.LevelDbStore.Db, H.crlloader.MultiSchemesCRLLoader, H.crlloader.URLLoader, H.crlloader.FileLoader, X.ldbhas, X.fs, X.net, X.retry, X.stream, X.spos, X.hacc, X.hkind, E.uint8, E.any, E.string, fresh:E.*core.CertificateChainEntry, fresh:E.core.CertificateChain, fresh:E.core.CertificateChainEntry, *c, M.map[string]int, G.crl.workDirsInUse, G.crl.lastCrlUpdateFinishTime, X.ticker
@@ -66,6 +67,7 @@ package crl
 //@   props C15 C19 C07
 //@   requires checkerOK(c)
 //@   requires[C15,C19] usable_interval: c.crlConfig.UpdateIntervalParsed > 0
+//@   ensures[C15,C19] ticker_runs_at_the_configured_interval: called(NewTicker#1) && arg(NewTicker#1, 0) == old(c.crlConfig.UpdateIntervalParsed)
 //@   assigns *c
 //@   ensures checkerOK(c)
 
